@@ -40,8 +40,14 @@ package textwire
 //@ func fileContent
 //@   modifies nothing
 //@ func joinPaths
+//@   ensures joined-with-one-slash: result == lib("strings.TrimRight", path1, "/") + "/" + lib("strings.TrimLeft", path2, "/")
 //@   modifies nothing
+// C18: a name resolves to <directory>/<name><extension>, the extension always appended
 //@ func getFullPath
+//@   call filepath.Abs#0: assert name-in-the-directory-with-the-extension: (usesTemplates && appendExt ==> arg0 == lib("strings.TrimRight", userConfig.TemplateDir, "/") + "/" + lib("strings.TrimLeft", old(filename), "/") + userConfig.TemplateExt)
+//@        && (usesTemplates && !appendExt ==> arg0 == lib("strings.TrimRight", userConfig.TemplateDir, "/") + "/" + lib("strings.TrimLeft", old(filename), "/"))
+//@        && (!usesTemplates && appendExt ==> arg0 == old(filename) + userConfig.TemplateExt)
+//@        && (!usesTemplates && !appendExt ==> arg0 == old(filename))
 //@   modifies nothing
 // C18: the template name is the path without the directory prefix and the extension suffix
 //@ func nameFromPath
@@ -80,6 +86,9 @@ package textwire
 //@   requires TplInv(t)
 //@   call String#0: bind rendered
 //@   call fmt.Fprint#0: assert page-only-on-success: rendered1 == nil
+//@   call fmt.Fprint#0: assert writes-exactly-the-rendered-page: len(arg1) == 1 && istype(arg1[0], string) && as(arg1[0], string) == rendered0
+//@   call errorPage#0: bind builtinPage
+//@   call fmt.Fprint#1: assert writes-exactly-the-built-in-page: len(arg1) == 1 && istype(arg1[0], string) && as(arg1[0], string) == builtinPage0
 //@   call responseErrorPage#0: assert custom-page-only-when-configured-and-not-debugging: rendered1 != nil && userConfig.ErrorPagePath != "" && !userConfig.DebugMode
 //@   call errorPage#0: assert builtin-page-otherwise: rendered1 != nil && (userConfig.ErrorPagePath == "" || userConfig.DebugMode)
 //@   goal nil-iff-rendered: (result == nil) == (rendered1 == nil)
@@ -115,10 +124,12 @@ package textwire
 
 // ---- loading (C06, C07, C18) ----
 
-// C18: the directory is remembered without leading and trailing slashes, whatever its spelling
+// C18: the directory is remembered in its shortest spelling (no '.', '..' or doubled
+// separators) without leading and trailing slashes, so that the paths the walk produces
+// begin with it whatever spelling the caller used
 //@ func Configure
 //@   ensures opt != nil ==> userConfig.DebugMode == opt.DebugMode
-//@   ensures directory-without-surrounding-slashes: opt != nil && old(opt.TemplateDir) != "" ==> userConfig.TemplateDir == lib("strings.Trim", old(opt.TemplateDir), "/")
+//@   ensures directory-without-surrounding-slashes: opt != nil && old(opt.TemplateDir) != "" ==> userConfig.TemplateDir == lib("strings.Trim", lib("filepath.ToSlash", lib("filepath.Clean", old(opt.TemplateDir))), "/")
 //@   ensures directory-kept: opt == nil || old(opt.TemplateDir) == "" ==> userConfig.TemplateDir == old(userConfig.TemplateDir)
 //@   ensures extension-taken-over: opt != nil && old(opt.TemplateExt) != "" ==> userConfig.TemplateExt == old(opt.TemplateExt)
 //@   ensures extension-kept: opt == nil || old(opt.TemplateExt) == "" ==> userConfig.TemplateExt == old(userConfig.TemplateExt)
